@@ -23,6 +23,15 @@ def pi_axioms():
     return [PI > z3.RealVal('3.14159'), PI < z3.RealVal('3.1416')]
 
 
+def deg2rad(x):
+    """ASSUMED numpy contract: deg2rad(x) = x * pi / 180 (pi the same symbolic constant as np.pi)"""
+    return x * (pi / 180)
+
+
+def rad2deg(x):
+    return x * (180 / pi)
+
+
 class _Rand:
     """np.random: every draw is recorded as an effect and returns fresh values from the ghost stream."""
 
@@ -119,7 +128,13 @@ def arange(*a):
     elif len(a) == 2:
         lo, hi = lift(a[0]), lift(a[1])
     else:
-        raise Unsupported('arange with step')
+        # np.arange(lo, hi, step) with three CONCRETE integers: lo, lo+step, ... (ASSUMED numpy contract, cross-checked: length ceil((hi-lo)/step))
+        cl, ch, cs = (concrete(lift(v)) for v in a[:3])
+        if len(a) != 3 or None in (cl, ch, cs) or cs == 0 or any(lift(v).sort() != I for v in a[:3]):
+            raise Unsupported('arange with step')
+        cn = max(0, -((cl - ch) // cs))
+        r = SArr((z3.IntVal(cn),), lambda i, cl=cl, cs=cs: z3.IntVal(cl) + z3.IntVal(cs) * i, 'i', incr=cs > 0)
+        return r
     if lo.sort() != I or hi.sort() != I:
         # np.arange(lo, hi) over reals, unit step: lo, lo+1, ... below hi   (ASSUMED: length ceil(hi - lo))
         lo_, hi_ = to_real(lo), to_real(hi)
